@@ -19,6 +19,7 @@ docstrings, logger calls, `pass`; `x += [a, b]` / `x.extend([a, b])` = two appen
 `a = b = 0`; dict(...) / {...} for the returned mapping; `position < len(xs)` = `len(xs) > position`.
 """
 import ast
+import copy
 from .common import TranslationError, parse, find_class, find_func, src_of, coq_bool, HEADER
 
 REL = 'opytimizer/core/node.py'
@@ -289,12 +290,28 @@ def post_order(cls, src, items):
     fn = find_func(cls, 'post_order')
     if fn is None:
         raise TranslationError(REL, cls, 'Node.post_order not found')
+    # the node variable: `self` itself (re-bound by the traversal), or one local initialised `<node> = self` before the loop
+    cur = 'self'
+    alias = [st for st in clean(fn.body) if isinstance(st, ast.Assign) and len(st.targets) == 1 and isinstance(st.targets[0], ast.Name)
+             and isinstance(st.value, ast.Name) and st.value.id == 'self']
+    if alias:
+        if len(alias) > 1 or alias[0] not in fn.body:
+            raise TranslationError(REL, alias[0], 'post_order: more than one alias of self')
+        cur = alias[0].targets[0].id
+        fn2 = ast.FunctionDef(name=fn.name, args=fn.args, body=[st for st in fn.body if st is not alias[0]], decorator_list=[], returns=None)
+        ast.copy_location(fn2, fn)
+        for n in ast.walk(fn2):
+            if isinstance(n, ast.Name) and n.id == 'self':
+                raise TranslationError(REL, n, 'post_order: `self` is used next to its alias `%s`' % cur)
+        fn = fn2
     lists, loop, out, stack = two_lists(fn, 'post_order')
+    if cur in lists:
+        raise TranslationError(REL, fn, 'post_order: the node variable is also a list')
     if lists[stack]:
         raise TranslationError(REL, fn, 'post_order: the work list must start empty')
     if not (isinstance(loop.test, ast.Constant) and loop.test.value in (True, 1)):
         raise TranslationError(REL, loop, 'post_order: expected `while True:`')
-    env = Env(cur='self', stack=stack, out=out)
+    env = Env(cur=cur, stack=stack, out=out)
     body = clean(loop.body)
     if len(body) < 3 or not isinstance(body[0], ast.While) or body[0].orelse:
         raise TranslationError(REL, loop, 'post_order: expected the inner `while self is not None:` first')
@@ -304,7 +321,7 @@ def post_order(cls, src, items):
     ib = clean(inner.body)
     last = ib[-1] if ib else None
     if not (isinstance(last, ast.Assign) and len(last.targets) == 1 and isinstance(last.targets[0], ast.Name)
-            and last.targets[0].id == 'self' and nexp(last.value, env) == '(NLeft NCur)'):
+            and last.targets[0].id == cur and nexp(last.value, env) == '(NLeft NCur)'):
         raise TranslationError(REL, inner, 'post_order: the inner loop must end with `self = self.left`')
     descend = stmts(ib[:-1], env)
     if any(('SSetCur' in d or 'SPopCur' in d) for d in descend):
@@ -450,9 +467,38 @@ def fret(s, node):
     return '(FRet %s %s)' % (w, f)
 
 
+def _subst(node_ast, env):
+    class Sub(ast.NodeTransformer):
+        def visit_Name(self, n):
+            if isinstance(n.ctx, ast.Load) and n.id in env:
+                return copy.deepcopy(env[n.id])
+            return n
+    return Sub().visit(copy.deepcopy(node_ast))
+
+
 def ftree(body, node):
-    """A block that is one `return` or one if-chain (nothing after it) -> ftree; an empty block falls through."""
+    """A block that is one `return` or one if-chain (nothing after it) -> ftree; an empty block falls through.
+    Leading `<local> = <node>.parent...` bindings (attribute reads of the node: pure, and evaluated at once in the original as well,
+    since the first statement that follows reads the same chain) are inlined into the rest of the block."""
     body = clean(body)
+    env = {}
+    while len(body) > 1 and isinstance(body[0], ast.Assign) and len(body[0].targets) == 1 and isinstance(body[0].targets[0], ast.Name):
+        name = body[0].targets[0].id
+        val = _subst(body[0].value, env)
+        if name == node or name in env:
+            raise TranslationError(REL, body[0], 'find_node: re-binding of `%s`' % name)
+        pexp(val, node)          # must be a parent chain of the node (raises otherwise)
+        env[name] = val
+        body = body[1:]
+    if env:
+        rest = [_subst(b, env) for b in body]
+        # the binding is evaluated before the test; that is only the original's behaviour if the first thing the rest evaluates is
+        # (an extension of) every bound chain -- otherwise an AttributeError of the chain would be raised earlier than before
+        first = rest[0].test if isinstance(rest[0], ast.If) else None
+        for name, val in env.items():
+            if first is None or ast.unparse(val) not in ast.unparse(first):
+                raise TranslationError(REL, body[0], 'find_node: local `%s` is not read by the test that follows its binding' % name)
+        body = rest
     if not body:
         return 'FFall'
     if len(body) != 1:
